@@ -18,8 +18,12 @@ ASSUMPTIONS = [
 ]
 SOURCE_FILES = ["barter/src/statistic/summary/instrument.rs", "barter/src/statistic/summary/pnl.rs", "barter/src/statistic/summary/mod.rs",
                 "barter/src/statistic/summary/asset.rs", "barter/src/statistic/metric/win_rate.rs", "barter/src/statistic/metric/profit_factor.rs",
-                "barter/src/engine/state/position.rs", "barter/src/engine/state/asset/mod.rs", "barter/src/engine/state/instrument/mod.rs"]
-PREBUILD = [["python3", "tools/rust2lean.py", "--require", "metric"]]
+                "barter/src/engine/state/position.rs", "barter/src/engine/state/asset/mod.rs", "barter/src/engine/state/instrument/mod.rs",
+                "barter/src/lib.rs", "barter/src/statistic/metric/drawdown/mod.rs", "barter/src/statistic/metric/drawdown/mean.rs",
+                "barter/src/statistic/metric/drawdown/max.rs", "barter/src/statistic/summary/dataset/mod.rs",
+                "barter/src/statistic/summary/dataset/dispersion.rs"]
+PREBUILD = [["python3", "tools/rust2lean.py", "--require", "metric"],
+            ["python3", "tools/rust2lean_sm.py", "--require", "dataset,pnl_returns"]]
 
 
 def signature(ops, k, key, impl_line, spec_line):
@@ -57,5 +61,6 @@ LEVEL_NOTE = ("Trusted: Lean kernel; axioms propext/Classical.choice/Quot.sound 
               "checked as `panic` on both sides). Asset tear sheets: only balance_end is in scope (drawdowns are C18); Sharpe/Sortino/Calmar not compared. "
               "Break-even positions count as wins for the win rate and contribute zero gross win, so break-evens + losses give Decimal::MIN; "
               "the doc comment of ProfitFactor says `1.0` for zero profits and zero losses while code and unit test return None (reported, not a C16 clause). "
-              "Additionally tied by translation: the Lean definitions of the kernels calculate_pnl_return (position.rs), WinRate::calculate (metric/win_rate.rs), ProfitFactor::calculate (metric/profit_factor.rs) are regenerated from the current source on every run (tools/rust2lean.py) and proved equal to the model's (kernels_agree_with_source), so a change of such a kernel breaks a proof obligation directly; the translator and its Decimal prelude are trusted for that tie.")
+              "Additionally tied by translation: the Lean definitions of the kernels calculate_pnl_return (position.rs), WinRate::calculate (metric/win_rate.rs), ProfitFactor::calculate (metric/profit_factor.rs) are regenerated from the current source on every run (tools/rust2lean.py) and proved equal to the model's (kernels_agree_with_source), so a change of such a kernel breaks a proof obligation directly; the translator and its Decimal prelude are trusted for that tie. "
+              "The PnLReturns / TearSheetGenerator state machine (PnLReturns::update, TearSheetGenerator::{init, update_from_position}, derived Defaults, Timed::new) is likewise regenerated by tools/rust2lean_sm.py (Generated/Machines2.lean) and proved to commute with this model's step functions through the field projections, and to equal the complete generator model of sub-check C16M field by field (state_machine_agrees_with_source; generate and algorithm::sqrt are not translated).")
 SUBCHECKS = ["C16M"]
